@@ -26,7 +26,7 @@ def schema():
 
 def plan(tier):
     return {
-        'level': 'exploration', 'shards': 16, 'budget_s': 80 if tier == 'quick' else 900,
+        'level': 'exploration', 'shards': 16, 'budget_s': 120 if tier == 'quick' else 900,
         'rule': 'primitive boundary grid; every discovered codec class with its setter-probed constructor '
                 'schema (all fields, each alone, each missing, random subsets, random accepted values) under '
                 'KMIP 1.0-2.0; whole request messages from the request generator and the server\'s responses, '
@@ -50,7 +50,7 @@ def cases(tier, seed):
     for key in S.classes:
         if S.params.get(key) and key.split('.')[-1] not in codec.PRIMS:
             cs.append({'cls': key})
-    n = 24 if tier == 'quick' else 400
+    n = 96 if tier == 'quick' else 640
     cs += [{'msg': i} for i in range(n)]
     return cs
 
